@@ -416,7 +416,7 @@ Print Assumptions C10_reference_track.
 (* findEndTime succeeded: the end time is the start of the first sync sample (every sample when there is no stss) that starts
    at or after r = floor(ms * timescale / 1000) — except, without stss, when no sample starts at or after r: then it is the end
    of the track (cropMP4 as a whole then fails: C10_crop_end_to_end has no such case) *)
-Theorem C10_end_time_inv : forall tb ts ms et, consistent tb = true -> deltas_strict tb = true -> 1 <= nsamples tb ->
+Theorem C10_end_time_inv : forall tb ts ms et, consistent tb = true -> deltas_strict tb = true ->
   find_end_time tb ts ms = Ok et ->
   u64 (ms * ts) / 1000 < sumN (durs tb) /\
   (first_sync_from tb (u64 (ms * ts) / 1000) et \/ (t_stss tb = None /\ et = sumN (durs tb))).
@@ -514,8 +514,8 @@ Print Assumptions C10_write_mdat_modes_differ.
 (* THE PROPERTY, END TO END, about cropMP4 = findEndTime -> findTrakEnds -> fillTrakOutsAndByteRanges -> cropStblChildren ->
    updateChunkOffsets (sizeWithoutMdat from the cropped tables) -> [non-mdat boxes] -> writeMdat.
    Input: any number of tracks with handler types; trak_wf per track = static_ok (consistent tables, track id <> 0, chunk
-   offsets in [1,2^62) in ANY order, chunks inside the file), every stts delta positive, at least one sample, 32-bit
-   timescale; distinct track ids (the domain on which the positional model mirrors the tool's map keyed by track id); ms = the requested duration; rest = the bytes of the non-mdat boxes other than the eight table boxes.
+   offsets in [1,2^62) in ANY order, chunks inside the file), every stts delta positive, 32-bit timescale (a track without
+   samples makes the tool fail: C10_empty_track); distinct track ids (the domain on which the positional model mirrors the tool's map keyed by track id); ms = the requested duration; rest = the bytes of the non-mdat boxes other than the eight table boxes.
    NOTHING is assumed about the end time: that it lies inside every track follows from the tool succeeding.
    Whenever crop_mp4_file succeeds and writeMdat (lazy input mdat) succeeds, with pre = the encoded non-mdat boxes
    (any bytes of the length Size() gives them: rest + the table boxes of the OUTPUT tables):
@@ -542,10 +542,8 @@ Example ex_e2e : Forall (trak_wf ex_file) (map th_trak e2e_hs) /\ distinct_ids e
 Proof.
   split.
   - constructor; [|constructor; [|constructor]].
-    + split; [apply static_okb_ok; vm_compute; reflexivity|]. split; [vm_compute; reflexivity|].
-      split; vm_compute; [intros H; discriminate H|reflexivity].
-    + split; [apply static_okb_ok; vm_compute; reflexivity|]. split; [vm_compute; reflexivity|].
-      split; vm_compute; [intros H; discriminate H|reflexivity].
+    + split; [apply static_okb_ok; vm_compute; reflexivity|]. split; vm_compute; reflexivity.
+    + split; [apply static_okb_ok; vm_compute; reflexivity|]. split; vm_compute; reflexivity.
   - split.
     { unfold distinct_ids. cbn. constructor; [intros [H|[]]; discriminate H|]. constructor; [intros []|constructor]. }
     vm_compute. reflexivity.
@@ -588,3 +586,67 @@ Theorem C10_crop_end_to_end_mem :
     Forall2 (out_track file outf (lenN pre) (lenN (out_bytes file ranges)) et ets) (map th_trak hs) shifted.
 Proof. exact crop_end_to_end_mem. Qed.
 Print Assumptions C10_crop_end_to_end_mem.
+
+(* a track without samples: GetSampleNrAtTime never returns a sample number, so findEndTime / findTrakEnds (hence the tool)
+   fail on it; this is why C10_crop_end_to_end needs no "at least one sample" hypothesis *)
+Theorem C10_empty_track : forall tb t nr, consistent tb = true -> nsamples tb = 0 ->
+  stts_get_sample_nr_at_time (t_stts_count tb) (t_stts_delta tb) t = Ok nr -> False.
+Proof. exact sat_empty_track. Qed.
+Print Assumptions C10_empty_track.
+
+(* every byte range handed to writeMdat starts at a chunk offset of some track (ranges are only ever extended at their end) *)
+Theorem C10_range_starts : forall hs ms rest et ets shifted ranges ks swm,
+  crop_mp4_file hs ms rest = Ok (et, ets, (shifted, ranges, ks, swm)) ->
+  Forall (fun r => off_of (map ti_tb (map th_trak hs)) (fst r)) ranges.
+Proof. exact crop_range_starts. Qed.
+Print Assumptions C10_range_starts.
+
+(* the in-memory mode with hypotheses on the INPUT only: every chunk of every track starts inside the input mdat's payload
+   and ends inside it (chunks_in_payload: trak_wf on the file cut at the end of the payload + every chunk offset in
+   [payload start, payload end)) *)
+Example ex_chunks_in_payload : C08Spec.box_in_file ex_file 92 false 300 = true /\
+  Forall (chunks_in_payload ex_file (92 + C08Spec.hdr_len false) (92 + C08Spec.hdr_len false + 300)) (map th_trak e2e_hs).
+Proof.
+  split; [vm_compute; reflexivity|].
+  assert (Hoff : forall l c o, get_offset l c = Ok o -> In o l).
+  { intros l c o H. unfold get_offset in H. destruct ((c =? 0) || (lenN l <? c)); [discriminate|].
+    unfold idx_m1 in H. destruct (c =? 0); [discriminate|]. unfold idx in H.
+    destruct (nthN l (c - 1)) eqn:E; [|discriminate]. injection H as <-. exact (nthN_In _ _ _ E). }
+  constructor; [|constructor; [|constructor]].
+  - split.
+    + split; [apply static_okb_ok; vm_compute; reflexivity|]. split; vm_compute; reflexivity.
+    + intros c o H. apply Hoff in H. cbn in H. destruct H as [<-|[<-|[]]]; cbn; lia.
+  - split.
+    + split; [apply static_okb_ok; vm_compute; reflexivity|]. split; vm_compute; reflexivity.
+    + intros c o H. apply Hoff in H. cbn in H. destruct H as [<-|[<-|[<-|[]]]]; cbn; lia.
+Qed.
+Theorem C10_crop_end_to_end_mem_input :
+  forall file zeof startPos large payloadLen hs ms rest pre et ets shifted ranges ks swm outf,
+  Forall (chunks_in_payload file (startPos + C08Spec.hdr_len large) (startPos + C08Spec.hdr_len large + payloadLen))
+         (map th_trak hs) ->
+  distinct_ids hs ->
+  4611686018427387904 + 2 * total_bytes (map th_trak hs) < 18446744073709551616 ->
+  C08Spec.box_in_file file startPos large payloadLen = true ->
+  crop_mp4_file hs ms rest = Ok (et, ets, (shifted, ranges, ks, swm)) ->
+  lenN pre = rest + sumN (map stbl_var_size shifted) ->
+  lenN pre + mdat_out_hdr + 2 * total_bytes (map th_trak hs) < 18446744073709551616 ->
+  crop_mp4_output file zeof (C08Model.mdat_mem file startPos large payloadLen) pre ranges = Ok outf ->
+  exists ref hdr, ref_choice hs ref /\ ets = ti_ts ref /\ swm = lenN pre /\
+    first_sync_from (ti_tb ref) (u64 (ms * ti_ts ref) / 1000) et /\
+    outf = pre ++ hdr ++ out_bytes file ranges /\
+    hdr = C08Model.be32 (lenN (out_bytes file ranges) + 8) ++ C08Model.name_mdat /\
+    lenN (out_bytes file ranges) + 8 < 4294967296 /\
+    Forall2 (out_track file outf (lenN pre) (lenN (out_bytes file ranges)) et ets) (map th_trak hs) shifted.
+Proof. exact crop_end_to_end_mem_input. Qed.
+Print Assumptions C10_crop_end_to_end_mem_input.
+
+(* cropMP4 including writeUptoMdat (crop_mp4_all): it succeeds only if crop_mp4_file does, with the same result, and the header
+   durations do not exceed the originals (as C10_header_durations; mvhd under the conforming-input guard, known C10-F9) *)
+Theorem C10_crop_mp4_durations : forall hs mvts tks ms rest et ets x nd tks',
+  crop_mp4_all hs mvts tks ms rest = Ok (et, ets, x, (nd, tks')) ->
+  crop_mp4_file hs ms rest = Ok (et, ets, x) /\
+  Forall2 (fun old new => tk_dur new = nd /\ nd <= tk_dur old /\ md_dur new = md_dur old /\ elst_le (tk_elst new) (tk_elst old))
+          tks tks' /\
+  (forall mv, (exists t, In t tks /\ tk_dur t <= mv) -> nd <= mv).
+Proof. exact crop_mp4_all_ok. Qed.
+Print Assumptions C10_crop_mp4_durations.
